@@ -473,15 +473,16 @@ fn gen_c14(rng: &mut Rng, tier: &str) -> Vec<Line> {
       }
       // reorg depth: mostly shallow, sometimes up to a bit beyond the recoverable bound
       let d = if rng.chance(2, 3) { rng.range(1, iv.min(height)) } else { rng.range(1, (mx * iv + iv).min(height)) };
+      let d = d.min(height);
       let extra = if rng.chance(1, 8) { 0 } else { rng.range(1, 4) };
       let nn = if extra == 0 { rng.range(0, d) } else { d + extra };
       l = l.p(3u8).p(d).p(nn);
-      height = height - d + nn;
+      height = height.saturating_sub(d) + nn;
       if rng.chance(1, 4) {
         // nested: reorg again before updating
-        let d2 = rng.range(1, 3.min(height));
+        let d2 = rng.range(1, 3.min(height)).min(height);
         l = l.p(3u8).p(d2).p(d2 + 1);
-        height = height - d2 + d2 + 1;
+        height = height.saturating_sub(d2) + d2 + 1;
       }
       l = l.p(2u8);
       if rng.chance(1, 3) {
